@@ -597,7 +597,9 @@ def check_C12(ctx):
                 'against declarative reference predicates; (2) a seeded 1/40 sample of the frames is re-run on the real x/net/bpf VM; (3) wire scenarios run twice, '
                 'with and without the real programs applied; distinct = filter configuration')
         wire_family(ctx, 'C12', pairs, rule, nontrivial=lambda s, es: False)
-        ctx.extra['rule'] = rule
+        # 5. the real capture path: AF_PACKET socket, attached program, drain - on a kernel path, one configuration per filter type and family
+        lab_family(ctx, 'C12', 'C12')
+        ctx.extra['rule'] = rule + '; (4) KernelPath!C12Lab: the real AF_PACKET capture path with the attached programs on a kernel path (IPv4/IPv6 ICMP and UDP, TCP SYN, SACK)'
     vt.write_evidence(ctx, 'model_checking', ctx.extra.get('rule', 'see DESIGN.md C12'), exhaustive=True)
 
 DOC_RULE = ('documents enumerated by TLC from GenDoc!%s, built as real result.Results, run through Enrich / Normalize / RemovePrivateHops and json.Marshal; '
